@@ -472,7 +472,7 @@ def run(chk):
     _tr = _sp.run(['/venv/bin/python', str(common.VERIF / 'harness' / 'translate_driver.py'), '--repo', str(common.REPO)], capture_output=True, text=True)
     if _tr.returncode != 0:
         chk.proof_broken.append({'theorem': 'translator (harness/translate_driver.py) refused the source of the time loop', 'log': (_tr.stdout + _tr.stderr)[-800:]})
-    chk.proof_side(build=not getattr(chk, 'no_build', False), extra_props=('C15Extra',))
+    chk.proof_side(build=not getattr(chk, 'no_build', False), extra_props=('C15Extra', 'C05Extra'))
     stats = {'bit_identical': 0, 'compared': 0}
     drv = common.LeanDriver('C05.lean')
     try:
